@@ -923,18 +923,20 @@ def check_views_and_batch(ctx: Ctx, case):
         if nonfinite_fail(ctx, case, name, label, ref, dtype, rows, key):
             continue
         # (a) each item alone
+        sel = list(range(n)) if n <= 48 else sorted(set(range(len(label) % max(1, n // 40), n, max(1, n // 40))) | {0, n - 1})   # cost cap: ~40 items alone, another residue class per op
         try:
-            single = torch.cat([fn(P.LieTensor(rows[i:i + 1].clone(), ltype=lt_)).tensor().double().reshape(-1, ow) for i in range(n)])
+            single = torch.cat([fn(P.LieTensor(rows[i:i + 1].clone(), ltype=lt_)).tensor().double().reshape(-1, ow) for i in sel])
         except Exception as ex:
             ctx.fail(case, f"raises {name}: {label} on a single item raised {type(ex).__name__}: {str(ex)[:120]}")
             continue
-        r, k = block_same(name, okind, ref, single, dtype, tin_of(kind, name, rows))
+        r, k = block_same(name, okind, ref[sel], single, dtype, tin_of(kind, name, rows[sel]))
+        k = sel[k] if r > 0 else 0
         ctx.count(f"batch-vs-item.{label}.{name}")
         ctx.note_case(("batch-vs-item", label, name, dtype, n), True)
         if not r <= 1.0:
             ctx.fail(item_case(k, batch=case[key], which=label),
                      f"batch {name}: {label} of item {k} inside a mixed batch of {n} differs from {label} of the item alone by "
-                     f"{r:.3g}×64 ulp ({dtype}): batched {ref[k].tolist()} vs alone {single[k].tolist()}")
+                     f"{r:.3g}×64 ulp ({dtype}): batched {ref[k].tolist()} vs alone {single[sel.index(k)].tolist()}")
         # (b) views
         variants = {}
         buf = torch.full((2 * n + 1, width + 3), 7.25, dtype=D)
@@ -1240,8 +1242,9 @@ def _with(cm, f):
         return f()
 
 
-SHAPES = [(1,), (3,), (4,), (7,), (8,), (11,), (1, 3), (3, 1), (3, 3), (3, 4), (4, 3), (3, 7), (8, 3), (6, 3), (1, 1, 3), (3, 1, 1),
+SHAPES = [(1,), (3,), (4,), (7,), (11,), (1, 3), (3, 1), (3, 3), (3, 4), (4, 3), (8, 3), (1, 1, 3), (3, 1, 1),
           (3, 3, 3), (2, 3, 5), (1, 1)]
+SHAPES_THOROUGH = [(8,), (3, 7), (6, 3), (5, 3, 2)]
 
 
 def run_shape_sweep(ctx: Ctx):
@@ -1255,7 +1258,7 @@ def run_shape_sweep(ctx: Ctx):
         D = U.dt(dtype)
         anchors = anchor_quats(eps)
         sig = anchor_sigmas(eps)
-        shapes = SHAPES if dtype == "float64" else [(3,), (1, 3), (3, 1), (3, 3), (4, 3)]
+        shapes = (SHAPES + ([] if ctx.quick else SHAPES_THOROUGH)) if dtype == "float64" else [(3,), (1, 3), (3, 1), (3, 3)]
         for name in U.GROUPS:
             for kind in ("group", "alg"):
                 grp = kind == "group"
@@ -1375,9 +1378,7 @@ def interleave_probe(ctx: Ctx, spec):
                     "ExpLog": lambda: X.Log().Exp(), "LogInv": lambda: X.Inv().Log()}[op]())
     orders = {
         "as listed": list(range(len(jobs))),
-        "reversed": list(reversed(range(len(jobs)))),
         "dtypes alternating": [i for pair in zip(range(len(jobs) // 2), range(len(jobs) // 2, len(jobs))) for i in pair],
-        "by op across types": sorted(range(len(jobs)), key=lambda i: (jobs[i][2], jobs[i][1], jobs[i][0])),
         "Sim3 first, float32 first": sorted(range(len(jobs)), key=lambda i: (-U.GROUPS.index(jobs[i][1]), jobs[i][0] != "float32")),
     }
     first = None
@@ -1427,7 +1428,9 @@ def run_large_batches(ctx: Ctx):
 
 
 def _run_large_batches(ctx, P, rng, pend):
-    sizes = [(2 ** 14 + 1, [(2 ** 14 + 1,), (1, 2 ** 14 + 1)]), (2 ** 16 + 1, [(2 ** 16 + 1,)]), (2 ** 10 - 1, [(3, 341)])]
+    sizes = [(2 ** 14 + 1, [(1, 2 ** 14 + 1)]), (2 ** 16 + 1, [(2 ** 16 + 1,)]), (2 ** 10 - 1, [(3, 341)])]
+    if not ctx.quick:
+        sizes[0] = (2 ** 14 + 1, [(2 ** 14 + 1,), (1, 2 ** 14 + 1)])
     if not ctx.quick:
         sizes += [(2 ** 17 + 1, [(2 ** 17 + 1,)]), (2 ** 15, [(2 ** 15,), (128, 256)]), (2 ** 13 - 1, [(2 ** 13 - 1,)]),
                   (2 ** 12, [(64, 64), (2 ** 12,)]), (2 ** 10 - 1, [(2 ** 10 - 1,)])]
@@ -1790,6 +1793,144 @@ def lowprec_probe(ctx: Ctx):
                         ctx.fail(case, f"dtype {name}: {label} in {dname} differs from the float64 evaluation of the same input by {worst:.3g}×64 eps({dname})")
 
 
+# ----------------------------------------------------------------------------- round 6: layout × regime-minority × size (39, 41)
+
+def permuted_strides(flat, lshape):
+    """tensor of shape lshape+(w,) whose batch dimensions have PERMUTED strides: the storage is laid out in the reversed batch-dim
+    order and viewed back (what x.transpose / permute / movedim / a Fortran-ordered array give); item [idx] = flat[ravel(idx)]"""
+    w = flat.shape[-1]
+    T = flat.reshape(tuple(lshape) + (w,))
+    r = len(lshape)
+    rev = tuple(reversed(range(r))) + (r,)
+    store = T.permute(rev).contiguous()           # storage in reversed dim order
+    out = store.permute(rev)                      # viewed back: same values, permuted strides
+    assert out.shape == T.shape and (r < 2 or not out.is_contiguous())
+    return out
+
+
+def run_layout_minority(ctx: Ctx):
+    """classes 39 / 41 — batches of 16…64 items in 2-D / 3-D lshapes with permuted strides in which ONE / A FEW (≤ 1/8) / MOST items are
+    EXACTLY degenerate in one block (rotation = identity, scale = 1, translation = 0, or all) and the rest generic. For every
+    entry point (Log, Exp∘Log, Log∘Inv, Exp, Log∘Exp): every degenerate item and a sample of generic items of the batched result
+    against the same call on the item alone (contiguous clone), and the property's own clauses on EVERY item of the batched result
+    computed from the raw components (Exp(Log X) ≅ X, ‖rot Log X‖ ≤ π, Log(Inv X) = −Log X, Log(Exp x) = x below π) — so a batch-global
+    fast path or a lost in-place patch is reported with the concrete batch, not as a mere model disagreement."""
+    P = U.pp()
+    rng = ctx.rng
+    shapes = [(6, 4), (9, 5), (2, 3, 4), (4, 4, 4)]
+    for dtype in ("float64", "float32"):
+        eps = common.EPS[dtype]
+        D = U.dt(dtype)
+        anchors = [a for a in anchor_quats(eps) if 0.05 < norm(a[0][:3]) and abs(a[0][3]) > 0.05]
+        for name in U.GROUPS:
+            for kind in ("group", "alg"):
+                grp = kind == "group"
+                width = U.GDIM[name] if grp else U.ADIM[name]
+                lt_ = getattr(P, (name if grp else U.ALG[name]) + "_type")
+                blocks = ["rotation"] + (["translation"] if name in ("SE3", "Sim3") else []) + (["scale"] if name in ("RxSO3", "Sim3") else []) + ["all"]
+                combos = [(f, b) for f in ("one", "few", "most") for b in blocks]
+                use_shapes = shapes if dtype == "float64" else shapes[1::2]
+                for si, lshape in enumerate(use_shapes):
+                    n = int(math.prod(lshape))
+                    # every (fraction, block) pair once per type / kind / dtype, spread over the shapes
+                    for (frac, blk) in [cb for j, cb in enumerate(combos) if j % len(use_shapes) == si]:
+                        if True:
+                            ndeg = 1 if frac == "one" else (max(2, n // 8) if frac == "few" else n - max(2, n // 8))
+                            if frac == "few" and 8 * ndeg > n:
+                                ndeg = n // 8
+                            deg_idx = set(rng.sample(range(n), ndeg))
+                            rows = []
+                            for i in range(n):
+                                if grp:
+                                    q = list(anchors[rng.randrange(len(anchors))][0])
+                                    t = U.vec(rng, rng.choice([0.3, 1.0, 7.0]))
+                                    sg = rng.choice([0.3, -0.7, 1.2, -2.0])
+                                    if i in deg_idx:
+                                        if blk in ("rotation", "all"):
+                                            q = [0.0, 0.0, 0.0, 1.0]
+                                        if blk in ("translation", "all"):
+                                            t = [0.0, 0.0, 0.0]
+                                        if blk in ("scale", "all"):
+                                            sg = 0.0
+                                    rows.append((t if name in ("SE3", "Sim3") else []) + q + ([math.exp(sg)] if name in ("RxSO3", "Sim3") else []))
+                                else:
+                                    phi = U.vec(rng, rng.choice([0.2, 0.9, 1.7, 2.6]))
+                                    tau = U.vec(rng, rng.choice([0.3, 1.0, 7.0]))
+                                    sg = rng.choice([0.3, -0.7, 1.2, -2.0])
+                                    if i in deg_idx:
+                                        if blk in ("rotation", "all"):
+                                            phi = [0.0, 0.0, 0.0]
+                                        if blk in ("translation", "all"):
+                                            tau = [0.0, 0.0, 0.0]
+                                        if blk in ("scale", "all"):
+                                            sg = 0.0
+                                    rows.append((tau if name in ("SE3", "Sim3") else []) + phi + ([sg] if name in ("RxSO3", "Sim3") else []))
+                            flat = torch.tensor(rows, dtype=torch.float64).to(D)
+                            T = permuted_strides(flat, lshape)
+                            case = {"kind": kind, "type": name, "dtype": dtype, "shape": list(lshape), ("X" if grp else "x"): flat.double().tolist(),
+                                    "tags": [], "id": f"layout {frac} {blk}", "layout": "permuted strides", "degenerate_items": sorted(deg_idx),
+                                    "degenerate_block": blk}
+                            ctx.count(f"layout.{frac}.{blk}")
+                            ctx.note_case(("layout", lshape, frac, blk, name, kind, dtype), True)
+                            pick = sorted(deg_idx if len(deg_idx) <= 6 else rng.sample(sorted(deg_idx), 6)) + \
+                                [i for i in rng.sample(range(n), min(5, n)) if i not in deg_idx]
+                            res = {}
+                            for label, (fn, okind) in ops_of(kind, name).items():
+                                ow = (U.ADIM if okind == "alg" else U.GDIM)[name]
+                                try:
+                                    before = T.clone()
+                                    got = fn(P.LieTensor(T, ltype=lt_)).tensor()
+                                    if tuple(got.shape) != tuple(lshape) + (ow,) or got.dtype != D:
+                                        ctx.fail(case, f"layout {name}: {label} on permuted-stride shape {lshape} returned shape {tuple(got.shape)} dtype {got.dtype}")
+                                        continue
+                                    if not torch.equal(T, before):
+                                        ctx.fail(case, f"layout {name}: {label} modified its (permuted-stride) argument ({dtype})")
+                                    gf = got.double().reshape(-1, ow)
+                                    if nonfinite_fail(ctx, case, name, label + " (permuted strides)", gf, dtype, flat, "X" if grp else "x"):
+                                        continue
+                                    res[label] = gf
+                                    alone = torch.stack([fn(P.LieTensor(flat[i].clone(), ltype=lt_)).tensor() for i in pick]).double().reshape(-1, ow)
+                                except Exception as ex:
+                                    ctx.fail(case, f"layout {name}: {label} on a permuted-stride batch {lshape} raised {type(ex).__name__}: {str(ex)[:120]} ({dtype})")
+                                    continue
+                                r, k = block_same(name, okind, gf[pick], alone, dtype, tin_of(kind, name, flat[pick]))
+                                if not r <= 1.0:
+                                    i = pick[k]
+                                    ctx.fail(small({**case, "shape": [n]}, i, batch=flat.double().tolist(), lshape=list(lshape), which=label,
+                                                   item_is_degenerate=(i in deg_idx)),
+                                             f"layout {name}: {label} of item {i} ({'degenerate ' + blk if i in deg_idx else 'generic'}) inside a batch of shape "
+                                             f"{lshape} with permuted strides ({frac} item(s) exactly degenerate in '{blk}') is {gf[i].tolist()} but "
+                                             f"{alone[k].tolist()} for the item alone ({dtype})")
+                            # the property's own clauses on every item of the batched results, from the raw components
+                            fl = flat.double().tolist()
+                            for i in range(n):
+                                x = fl[i]
+                                if grp and "Exp(Log)" in res and "Log" in res and "Log(Inv)" in res:
+                                    q, t, sc = grp_blocks(name, x)
+                                    tsc = norm(t) if t is not None else 0.0
+                                    e = grp_err(name, res["Exp(Log)"][i].tolist(), x, dtype, tsc)
+                                    lg = res["Log"][i].tolist()
+                                    phi, tau, _ = alg_blocks(name, lg)
+                                    tausc = max(tsc, norm(tau)) if tau is not None else 0.0
+                                    e2 = alg_err(name, res["Log(Inv)"][i].tolist(), lg, dtype, tausc, sign=-1.0)
+                                    bad = {k2: round(v, 2) for k2, v in e.items() if not v <= 1.0}
+                                    bad2 = {k2: round(v, 2) for k2, v in e2.items() if not v <= 1.0}
+                                    if bad or bad2 or not (norm(phi) <= math.pi * (1 + 4 * eps)):
+                                        ctx.fail(small({**case, "shape": [n]}, i, batch=fl, lshape=list(lshape), item_is_degenerate=(i in deg_idx)),
+                                                 f"layout-law {name}: in a permuted-stride batch {lshape} ({frac} degenerate in '{blk}') item {i} violates "
+                                                 f"{'Exp(Log X)≅X ' + str(bad) if bad else ''}{' Log(Inv X)=-Log X ' + str(bad2) if bad2 else ''} ({dtype})")
+                                        break
+                                if (not grp) and "Log(Exp)" in res:
+                                    phi, tau, _ = alg_blocks(name, x)
+                                    e = alg_err(name, res["Log(Exp)"][i].tolist(), x, dtype, norm(tau) if tau is not None else 0.0)
+                                    bad = {k2: round(v, 2) for k2, v in e.items() if not v <= 1.0}
+                                    if bad:
+                                        ctx.fail(small({**case, "shape": [n]}, i, batch=fl, lshape=list(lshape), item_is_degenerate=(i in deg_idx)),
+                                                 f"layout-law {name}: in a permuted-stride batch {lshape} ({frac} degenerate in '{blk}') Log(Exp(x)) != x for item {i} "
+                                                 f"(angle {norm(phi):.3g} below pi); {bad} ({dtype})")
+                                        break
+
+
 TR_ANCHORS = [0.0, 1.0, 1e-3, 37.0, 1e3, 1e-20, 1e6, 1e-30, 1e12]
 
 
@@ -1891,6 +2032,7 @@ def run(ctx: Ctx):
     mode_order_probe(ctx)
     run_large_batches(ctx)
     run_huge(ctx)
+    run_layout_minority(ctx)
     other_ops_probe(ctx, spec)
     lowprec_probe(ctx)
     interleave_probe(ctx, spec)
